@@ -57,6 +57,11 @@ CHECKS = {
             "|R(z)| <= 1 is evaluated on 45 radii (1e-3..1e8) x 65 angles for all 16 implicit tableaux with a conditioned rounding bound, poles are excluded via the eigenvalues of A, and the real step on scalar and 2x2 damped-rotation blocks is compared with R(dT*lambda) and required not to increase |y|.",
             "Grid result is extended to the half-plane by the maximum principle (no poles + bound on the boundary); steps that raise FailedToMeetTolerances are not accepted steps (counts reported).",
             "DESIGN.md 4/C11"),
+    "C12": ("fault_enumeration",
+            "exhaustive crash-point enumeration: every call of the user's rhs / Jacobian / event functions / callbacks of a short run is numbered and one execution per call position and exception kind is run with exactly that call raising; then resume and reset",
+            "For 8 method set-ups x 2 directions x dense on/off x with/without events+callbacks the fault-free run numbers all user-function calls (about 4 000 sites in quick); each site is failed once with an Exception subclass and once with KeyboardInterrupt. After the fault: exception type and cause, failure status, bit-exact prefix of the fault-free rows, events a prefix, dense output covering exactly the accepted steps; after resume: ends at the target, monotone, dense invariants on the whole trajectory (exposes stale cached slopes), accuracy as good as the fault-free run, fixed-step methods bit-identical to a fresh system started at the prefix end; reset pristine. Thorough adds pairs of faults.",
+            "Runs of 3-5 steps (the statement's 'enumerated exhaustively for short runs'); sites are call positions since construction, determinism verified per site.",
+            "DESIGN.md 4/C12"),
     "C17": ("exploration",
             "exhaustive enumeration of all strictly increasing arrays of length 1..7 over a 9-point grid x 21 queries (scalar and vector search, 4 container types) and of cubic/interval/evaluation-point lattices for the Hermite piece",
             "The statement's own finite quantifier is enumerated completely: 501 arrays x 21 queries x {float32, float64, longdouble, list} against min(searchsorted_left, n-1); Hermite pieces for 7 cubics x 20 ordered intervals x 37 points x scalar/array data x 3 dtypes against the cubic itself with a derived rounding bound. exhaustive=true.",
